@@ -284,6 +284,10 @@ class Generator:
             if not f.has_body:
                 raise LostAnchor(f'fn {it.key} has no body')
             sig, body, impl, modpath = list(f.sig), list(f.body), f.impl, f.modpath
+            if f.outer and f.impl is None:
+                # R7: a free fn hoisted out of a method body is called unqualified from that method,
+                # so it must live where the impl blocks are emitted (crate root), not in the source module
+                modpath = ()
         elif e.kind == 'struct':
             l = self.x.structs.get(it.key.replace(' ', ''), [])
             if len(l) != 1:
@@ -561,6 +565,10 @@ class Generator:
                         emit(body, it if own else None)
                         emit('}')
                     else:
+                        if depth > 0:
+                            # a free fn that is private to its module: the generator emits impl blocks at the crate
+                            # root (not in their defining module), so such a callee must be nameable from there
+                            body = re.sub(r'^((?:#\[[^\]]*\]\s*)*)((?:const\s+|unsafe\s+)*fn\b)', r'\1pub(crate) \2', body, count=1)
                         emit(body, it if own else None)
             for k, sub in node.items():
                 if k == 'items':
@@ -571,6 +579,9 @@ class Generator:
                 emit('}')
 
         emit('#![allow(unused_imports, unused_variables, unused_mut, dead_code, non_snake_case, unused_parens, unused_braces, unused_assignments, non_upper_case_globals, unreachable_code)]')
+        # `vec![..]` expands (rustc -Zunpretty=expanded) to liballoc-internal calls `::alloc::boxed::box_assume_init_into_vec_unsafe(..)`
+        emit('#![feature(liballoc_internals)]')
+        emit('extern crate alloc;')
         emit('use vstd::prelude::*;')
         emit('verus! {')
         if canary:
